@@ -300,11 +300,11 @@ Definition check_powf (prt pra : positive) (slack : Z) (steps : list positive) (
     as-is accuracy of the directed rounding modes (open finding C11 directed_faithful): every
     intermediate operation rounds in the same direction, so the error of the final result can exceed
     one ulp.  What the implementation still guarantees, and what these functions decide, is
-    B^E <= |r| and |r - t| < B^(E-p+2): less than B units in the last place of the RESULT. *)
+    B^E <= |r| and |r - t| < 2 B^(E-p+1): less than two units in the last place of the RESULT. *)
 Definition loose_ulp (pr : F.precision) (B p : Z) (T : I.type) (rs re : Z) : verdict :=
   let E := dlen B rs + re - 1 in
   if fle B 1 E (Z.abs rs) re &&
-     is_gt (I.sign_strict (I.sub pr (ival pr B 1 (E - p + 2)) (I.abs (I.sub pr (ival pr B rs re) T))))
+     is_gt (I.sign_strict (I.sub pr (ival pr B 2 (E - p + 1)) (I.abs (I.sub pr (ival pr B rs re) T))))
   then VAccept else VUndecided.
 
 Definition loose_exp (prt pra : positive) (B p s e rs re : Z) : verdict :=
